@@ -26,6 +26,7 @@ AlphaTws == {"init", "start", "stop", "ping", "pong", "abort"}
 AlphaTwsFull == {"init", "initbad", "start", "stop", "ping", "pong", "invalid", "s2c", "abort", "closef"}
 AlphaOps == {"start", "stop", "term", "abort"}
 AlphaOpsS == {"start", "stop"}
+AlphaStart == {"start"}
 AlphaTwsOps == {"start", "stop", "ping", "pong", "abort"}
 KindsAll == {"end", "suberr", "panic"}
 KindsEnd == {"end"}
